@@ -26,6 +26,7 @@ import (
 	"strconv"
 	"strings"
 	"sync/atomic"
+	"testing/iotest"
 	"time"
 
 	"github.com/knz/shakespeare/pkg/crdb/log"
@@ -49,6 +50,7 @@ type jEntry struct {
 
 type codecCase struct {
 	Class   string
+	Reader  string // how the decoder is fed: "whole", "one", "half", "dataerr", "chunk-<k>"
 	In      []jEntry
 	Stream  string // %q
 	StreamB []byte
@@ -95,8 +97,46 @@ func formatAll(es []log.Entry) []byte {
 	return buf.Bytes()
 }
 
-func decodeAll(b []byte) ([]log.Entry, int, string) {
-	d := log.NewEntryDecoder(bytes.NewReader(b))
+// chunkReader returns at most k bytes per Read: every k-th byte of the stream
+// is a read boundary for bufio.Scanner.
+type chunkReader struct {
+	r io.Reader
+	k int
+}
+
+func (c chunkReader) Read(p []byte) (int, error) {
+	if len(p) > c.k {
+		p = p[:c.k]
+	}
+	return c.r.Read(p)
+}
+
+func readerFor(mode string, b []byte) io.Reader {
+	var r io.Reader = bytes.NewReader(b)
+	switch {
+	case mode == "one":
+		return iotest.OneByteReader(r)
+	case mode == "half":
+		return iotest.HalfReader(r)
+	case mode == "dataerr":
+		return iotest.DataErrReader(r)
+	case strings.HasPrefix(mode, "chunk-"):
+		k, err := strconv.Atoi(mode[len("chunk-"):])
+		if err != nil || k <= 0 {
+			panic("bad reader mode " + mode)
+		}
+		return chunkReader{r, k}
+	}
+	return r
+}
+
+var readerModes = []string{"whole", "one", "half", "dataerr", "chunk-2", "chunk-3", "chunk-7", "chunk-13", "chunk-24", "chunk-25",
+	"chunk-31", "chunk-64", "chunk-100", "chunk-1000", "chunk-4095", "chunk-4097"}
+
+func decodeAll(b []byte) ([]log.Entry, int, string) { return decodeVia("whole", b) }
+
+func decodeVia(mode string, b []byte) ([]log.Entry, int, string) {
+	d := log.NewEntryDecoder(readerFor(mode, b))
 	var res []log.Entry
 	for {
 		var e log.Entry
@@ -118,7 +158,11 @@ func decodeAll(b []byte) ([]log.Entry, int, string) {
 }
 
 func mkCodecCase(class string, in []log.Entry, stream []byte, note string) codecCase {
-	c := codecCase{Class: class, Note: note, StreamB: stream}
+	return mkCodecCaseVia("whole", class, in, stream, note)
+}
+
+func mkCodecCaseVia(mode, class string, in []log.Entry, stream []byte, note string) codecCase {
+	c := codecCase{Class: class, Reader: mode, Note: note, StreamB: stream}
 	s := string(stream)
 	if len(s) > 400 {
 		s = s[:300] + "..." + s[len(s)-80:]
@@ -127,7 +171,7 @@ func mkCodecCase(class string, in []log.Entry, stream []byte, note string) codec
 	for _, e := range in {
 		c.In = append(c.In, jOf(e))
 	}
-	out, k, txt := decodeAll(stream)
+	out, k, txt := decodeVia(mode, stream)
 	for _, e := range out {
 		c.Out = append(c.Out, jOf(e))
 	}
@@ -135,8 +179,19 @@ func mkCodecCase(class string, in []log.Entry, stream []byte, note string) codec
 	return c
 }
 
+// The stream goes out in chunks of at most 2000 bytes: one literal list of
+// several ten thousand elements overflows the stack of Coq's parser.
 func coqCodecCase(c codecCase) string {
-	return fmt.Sprintf("(%s, %s, %s, %d)", coqEntries(c.In), vh.Bytes(c.StreamB), coqEntries(c.Out), c.Err)
+	var chunks []string
+	for b := c.StreamB; len(b) > 0; {
+		n := len(b)
+		if n > 2000 {
+			n = 2000
+		}
+		chunks = append(chunks, vh.Bytes(b[:n]))
+		b = b[n:]
+	}
+	return fmt.Sprintf("(%s, %s, %s, %d)", coqEntries(c.In), vh.List(chunks), coqEntries(c.Out), c.Err)
 }
 
 func coqRawCase(c codecCase) string {
@@ -454,7 +509,8 @@ type snapFile struct {
 }
 
 type histOp struct {
-	Op  string // "log", "setmax", "gc", "snap", "setsync" (Arg 1/0), "peek" (list without flushing; sync mode only)
+	Op  string // "log", "setmax", "gc", "snap", "setsync" (Arg 1/0), "peek" (list without flushing; sync mode only), "close"
+	Now int64  // "log": the time stamp of the file written to after the call (syncBuffer.lastRotation)
 	Id  int64
 	Len int64 // bytes of the formatted entry
 	Arg int64 // setmax / gc argument
@@ -602,6 +658,9 @@ func (r *runner) look(lens map[int64]int64, h int64) []snapFile {
 			}
 			if lens != nil && !planted {
 				want := h
+				if sf.Other > 4 {
+					want = h * int64(sf.Other/4) // re-opened under the same name: one more header
+				}
 				for _, id := range sf.Ids {
 					want += lens[id]
 				}
@@ -696,7 +755,7 @@ func (r *runner) close() {
 	}
 }
 
-func runHist(rng *rand.Rand, kind string, cal calib, seq *int, gcOnly bool) (histCase, bool) {
+func runHist(rng *rand.Rand, kind string, cal calib, seq *int, gcOnly, reopen bool) (histCase, bool) {
 	sc := log.ScopeWithoutShowLogs(shim{})
 	defer sc.Close(shim{})
 	oldMax := atomic.LoadInt64(&log.LogFileMaxSize)
@@ -713,6 +772,10 @@ func runHist(rng *rand.Rand, kind string, cal calib, seq *int, gcOnly bool) (his
 		cal.h + 200, 1024, 2048, 4096}
 	pickMax := func() int64 { return maxChoices[rng.Intn(len(maxChoices))] }
 	hc.Max0 = pickMax()
+	if reopen {
+		// few rotations: the file names must not run ahead of the clock
+		hc.Max0 = []int64{2048, 4096, 1 << 20}[rng.Intn(3)]
+	}
 	atomic.StoreInt64(&log.LogFileMaxSize, hc.Max0)
 	curMax := hc.Max0
 
@@ -810,6 +873,7 @@ func runHist(rng *rand.Rand, kind string, cal calib, seq *int, gcOnly bool) (his
 		hc.Ops = append(hc.Ops, histOp{Op: "gc", Arg: b})
 		hc.Snaps = append(hc.Snaps, r.snapshotLens(lens, cal.h))
 	}
+	forceSmall := false
 	doLog := func() {
 		// choose the size of the entry relative to what is left in the file
 		open, nb, _ := r.vl.State()
@@ -828,6 +892,9 @@ func runHist(rng *rand.Rand, kind string, cal calib, seq *int, gcOnly bool) (his
 		default:
 			want = cal.overhead + 5 + int64(rng.Intn(80))
 		}
+		if forceSmall || (reopen && rng.Intn(8) != 0) {
+			want = cal.overhead + 5 + int64(rng.Intn(80))
+		}
 		id := nextID
 		nextID++
 		minLen := cal.overhead + int64(len(r.fullMsg(mkMsg(id, 0))))
@@ -843,7 +910,27 @@ func runHist(rng *rand.Rand, kind string, cal calib, seq *int, gcOnly bool) (his
 		length := cal.overhead + int64(len(r.fullMsg(msg)))
 		r.log(msg)
 		lens[id] = length
-		hc.Ops = append(hc.Ops, histOp{Op: "log", Id: id, Len: length})
+		_, _, stamp := r.vl.State()
+		hc.Ops = append(hc.Ops, histOp{Op: "log", Id: id, Len: length, Now: stamp})
+	}
+	// Close the file and write again at once: within the same second create()
+	// generates the name the file already has. Only when the newest file's name
+	// is not ahead of the clock (each rotation within one second bumps the
+	// stamp by one), and with room for the next entry, so that the re-open is
+	// the only rotation of that write.
+	doReopen := func() bool {
+		open, _, stamp := r.vl.State()
+		if !open || stamp > time.Now().Unix() || curMax < cal.h+cal.overhead+120 {
+			return false
+		}
+		if err := r.vl.CloseFile(); err != nil {
+			panic(err)
+		}
+		hc.Ops = append(hc.Ops, histOp{Op: "close"})
+		forceSmall = true
+		doLog()
+		forceSmall = false
+		return true
 	}
 
 	syncOn := false
@@ -865,7 +952,22 @@ func runHist(rng *rand.Rand, kind string, cal calib, seq *int, gcOnly bool) (his
 		hc.Ops = append(hc.Ops, histOp{Op: "peek"})
 		hc.Snaps = append(hc.Snaps, r.look(lens, cal.h))
 	}
-	if gcOnly {
+	if reopen {
+		for n := 5 + rng.Intn(20); n > 0; n-- {
+			switch k := rng.Intn(10); {
+			case k <= 2:
+				if !doReopen() {
+					doLog()
+				}
+			case k == 3:
+				doSnap()
+			case k == 4 && rng.Intn(3) == 0:
+				doSync(!syncOn)
+			default:
+				doLog()
+			}
+		}
+	} else if gcOnly {
 		if rng.Intn(3) == 0 {
 			doLog()
 		}
@@ -889,6 +991,7 @@ func runHist(rng *rand.Rand, kind string, cal calib, seq *int, gcOnly bool) (his
 				doSync(!syncOn)
 			case k == 4 && syncOn:
 				doPeek() // in sync mode every write is in the file already
+			case k == 5 && doReopen():
 			default:
 				doLog()
 				if syncOn && rng.Intn(3) == 0 {
@@ -1263,7 +1366,7 @@ func coqHist(h histCase) string {
 	for _, o := range h.Ops {
 		switch o.Op {
 		case "log":
-			ops = append(ops, fmt.Sprintf("HLog %s %s", vh.Z(o.Id), vh.Z(o.Len)))
+			ops = append(ops, fmt.Sprintf("HLog %s %s %s", vh.Z(o.Id), vh.Z(o.Len), vh.Z(o.Now)))
 		case "setmax":
 			ops = append(ops, "HSetMax "+vh.Z(o.Arg))
 		case "gc":
@@ -1272,6 +1375,8 @@ func coqHist(h histCase) string {
 			ops = append(ops, "HSnap")
 		case "peek":
 			ops = append(ops, "HPeek")
+		case "close":
+			ops = append(ops, "HClose")
 		case "setsync":
 			ops = append(ops, "HSetSync "+vh.Bool(o.Arg != 0))
 		}
@@ -1300,7 +1405,10 @@ func doReplay(path string) int {
 		return 2
 	}
 	var r struct {
-		Input struct{ In []jEntry }
+		Input struct {
+			In     []jEntry
+			Reader string
+		}
 	}
 	if err := json.Unmarshal(b, &r); err != nil {
 		fmt.Println(err)
@@ -1316,11 +1424,25 @@ func doReplay(path string) int {
 			File: string(j.FileB), Line: j.Line, Message: string(j.MsgB)})
 	}
 	s := formatAll(es)
-	outs, k, txt := decodeAll(s)
-	fmt.Printf("formatted: %q\n", s)
+	if r.Input.Reader == "" {
+		r.Input.Reader = "whole"
+	}
+	outs, k, txt := decodeVia(r.Input.Reader, s)
+	if len(s) > 2000 {
+		fmt.Printf("formatted: %d bytes, read through %q: %q ...\n", len(s), r.Input.Reader, s[:600])
+	} else {
+		fmt.Printf("formatted (read through %q): %q\n", r.Input.Reader, s)
+	}
 	bad := k != 0 || len(outs) != len(es)
+	shown := 0
 	for i, e := range outs {
-		fmt.Printf("decoded[%d]: severity=%d time=%d goroutine=%d file=%q line=%d message=%q\n", i, e.Severity, e.Time, e.Goroutine, e.File, e.Line, e.Message)
+		differs := i >= len(es) || e != func() log.Entry { w := es[i]; w.Time = w.Time / 1000 * 1000; return w }()
+		if len(outs) <= 20 || (differs && shown < 10) {
+			shown++
+			fmt.Printf("decoded[%d]: severity=%d time=%d goroutine=%d file=%q line=%d message=%q\n", i, e.Severity, e.Time, e.Goroutine, e.File, e.Line, e.Message)
+		} else {
+			continue
+		}
 		if i < len(es) {
 			want := es[i]
 			want.Time = want.Time / 1000 * 1000
@@ -1333,6 +1455,12 @@ func doReplay(path string) int {
 	if k != 0 {
 		fmt.Printf("decoder error: %s\n", txt)
 	}
+	for i, e := range outs {
+		if i >= len(es) || e != func() log.Entry { w := es[i]; w.Time = w.Time / 1000 * 1000; return w }() {
+			bad = true
+		}
+	}
+	fmt.Printf("%d entries formatted, %d decoded\n", len(es), len(outs))
 	if bad {
 		fmt.Println("ROUND TRIP FAILS")
 		return 1
@@ -1359,9 +1487,9 @@ func main() {
 	zoneOff := zones[int(uint64(*seed)%uint64(len(zones)))]
 	time.Local = time.FixedZone("VERIF", zoneOff)
 
-	nCodec, nRaw, nProbe, nHist, nGC, nMulti := 700, 300, 120, 80, 200, 70
+	nCodec, nRaw, nProbe, nHist, nGC, nMulti, nReopen := 600, 260, 120, 80, 180, 70, 40
 	if *tier == "thorough" {
-		nCodec, nRaw, nProbe, nHist, nGC, nMulti = 8000, 3000, 600, 800, 2000, 700
+		nCodec, nRaw, nProbe, nHist, nGC, nMulti, nReopen = 8000, 3000, 600, 800, 1800, 700, 400
 	}
 
 	// ---- codec: well-formed entries and concatenations
@@ -1393,7 +1521,58 @@ func main() {
 			es[k].File = fmt.Sprintf("%d %s", rng.Intn(100000), []string{"a.go", "x", "b c.go", "7"}[rng.Intn(4)])
 			class = "witness"
 		}
-		codec = append(codec, mkCodecCase(class, es, formatAll(es), ""))
+		codec = append(codec, mkCodecCaseVia(readerModes[i%len(readerModes)], class, es, formatAll(es), ""))
+	}
+	// read boundaries swept over every offset of a header: the reader returns 64
+	// bytes at a time and the first entry has 128-off bytes, so that a boundary
+	// falls off bytes into the (long) header of the second entry
+	{
+		t0 := time.Date(2031, 7, 9, 10, 11, 12, 131415000, time.UTC).UnixNano()
+		e2 := log.Entry{Severity: log.Severity_WARNING, Time: t0 + 1000, Goroutine: 1234567890123, File: "some/long dir/file name.go", Line: 98765, Message: "second: a:1"}
+		e3 := log.Entry{Severity: log.Severity_ERROR, Time: t0 + 2000, Goroutine: 0, File: "9 ", Line: 3, Message: "third"}
+		hdr2 := len(formatAll([]log.Entry{e2})) - len(e2.Message) - 1
+		for off := 0; off <= hdr2+2; off++ {
+			e1 := log.Entry{Severity: log.Severity_INFO, Time: t0, Goroutine: 5, File: "a.go", Line: 1}
+			base := len(formatAll([]log.Entry{e1}))
+			want := 128 - off
+			if want < base {
+				want += 64
+			}
+			e1.Message = strings.Repeat("s", want-base)
+			es := []log.Entry{e1, e2, e3}
+			mode := []string{"chunk-64", "chunk-32", "chunk-16"}[off%3]
+			codec = append(codec, mkCodecCaseVia(mode, "wf", es, formatAll(es), fmt.Sprintf("boundary sweep, offset %d", off)))
+		}
+	}
+	// long streams: beyond bufio.Scanner's 4 KiB first buffer and its 64 KiB limit
+	bigs := []struct {
+		n    int
+		mode string
+	}{{1700, "whole"}, {200, "half"}, {150, "chunk-4095"}}
+	if *tier == "thorough" {
+		bigs = append(bigs, struct {
+			n    int
+			mode string
+		}{5000, "whole"}, struct {
+			n    int
+			mode string
+		}{3000, "chunk-4097"}, struct {
+			n    int
+			mode string
+		}{3000, "one"})
+	}
+	for _, bg := range bigs {
+		var es []log.Entry
+		t0 := genTime(rng) / 1000 * 1000
+		for j := 0; j < bg.n; j++ {
+			g := int64(0)
+			if j%3 != 0 {
+				g = 1 + rng.Int63n(100000)
+			}
+			es = append(es, log.Entry{Severity: log.Severity(1 + j%4), Time: t0, Goroutine: g,
+				File: []string{"b.go", "dir/c.go", "x"}[rng.Intn(3)], Line: int64(j), Message: "m" + strconv.Itoa(j)})
+		}
+		codec = append(codec, mkCodecCaseVia(bg.mode, "wf", es, formatAll(es), "long stream"))
 	}
 
 	// ---- raw: perturbed streams, decoder only
@@ -1437,13 +1616,13 @@ func main() {
 		defer debug.SetGCPercent(oldGC)
 		calMain = calibrate("main", &seq)
 		calSec = calibrate("secondary", &seq)
-		for i := 0; i < nHist+nGC; i++ {
+		for i := 0; i < nHist+nGC+nReopen; i++ {
 			kind, cal := "main", calMain
 			if i%2 == 1 {
 				kind, cal = "secondary", calSec
 			}
 			for try := 0; ; try++ {
-				h, ok := runHist(rng, kind, cal, &seq, i >= nHist)
+				h, ok := runHist(rng, kind, cal, &seq, i >= nHist && i < nHist+nGC, i >= nHist+nGC)
 				if ok {
 					hist = append(hist, h)
 					break
@@ -1511,7 +1690,13 @@ func main() {
 	nontrivial := 0
 	entries := 0
 	classCount := map[string]int{}
+	readerCount := map[string]int{}
+	longest := 0
 	for _, c := range codec {
+		readerCount[c.Reader]++
+		if len(c.StreamB) > longest {
+			longest = len(c.StreamB)
+		}
 		classCount[c.Class]++
 		entries += len(c.In)
 		headerLike := false
@@ -1553,6 +1738,7 @@ func main() {
 		}
 	}
 	rotations, gcs, logs, histNontrivial := 0, 0, 0, 0
+	closes, sameName := 0, 0
 	for _, h := range hist {
 		nl, ng := 0, 0
 		for _, o := range h.Ops {
@@ -1561,6 +1747,15 @@ func main() {
 				nl++
 			case "gc":
 				ng++
+			case "close":
+				closes++
+			}
+		}
+		if len(h.Snaps) > 0 {
+			for _, f := range h.Snaps[len(h.Snaps)-1] {
+				if f.Other > 4 {
+					sameName += f.Other/4 - 1
+				}
 			}
 		}
 		logs += nl
@@ -1596,8 +1791,8 @@ func main() {
 		}
 	}
 	samples := []interface{}{codec[0], codec[1+rng.Intn(len(codec)-1)], raw[rng.Intn(len(raw))], probe[rng.Intn(len(probe))]}
-	if len(hist) == nHist+nGC {
-		samples = append(samples, hist[rng.Intn(nHist)], hist[nHist+rng.Intn(nGC)])
+	if len(hist) == nHist+nGC+nReopen {
+		samples = append(samples, hist[rng.Intn(nHist)], hist[nHist+rng.Intn(nGC)], hist[nHist+nGC+rng.Intn(nReopen)])
 	}
 	if len(multi) > 0 {
 		samples = append(samples, multi[rng.Intn(len(multi))])
@@ -1608,8 +1803,9 @@ func main() {
 		"probe": len(probe), "probe_kinds": probeKinds, "probe_roundtrip_failures": probeFail,
 		"local_zone_offset_s": zoneOff,
 		"hist":                len(hist), "hist_error": histErr, "hist_discarded_goid_glitch": discarded, "hist_log_ops": logs, "hist_gc_ops": gcs, "hist_files_at_end": rotations,
-		"calibration": map[string]interface{}{"main": []int64{calMain.overhead, calMain.h}, "secondary": []int64{calSec.overhead, calSec.h}},
-		"multi":       len(multi), "multi_log_ops": multiLogs, "multi_gc_ops": multiGcs,
+		"calibration":           map[string]interface{}{"main": []int64{calMain.overhead, calMain.h}, "secondary": []int64{calSec.overhead, calSec.h}},
+		"hist_close_reopen_ops": closes, "hist_reopens_under_same_name": sameName, "codec_readers": readerCount, "codec_longest_stream": longest,
+		"multi": len(multi), "multi_log_ops": multiLogs, "multi_gc_ops": multiGcs,
 		"distinct_nontrivial": nontrivial + histNontrivial + multiNontrivial,
 		"samples":             samples,
 	})
